@@ -34,7 +34,11 @@ WITNESSES = {   # the witnesses of the *_refuted theorems of Props/C14.v, as sch
     "c": ("a.foo string:int = a.Foo;\n", B.SIG_C),
     "d": ("unused x:int = Unused;\n", B.SIG_D),
     "e": ("rs.t {n:#} f:n.0?int = rs.T n;\n@read rs.fn m:# rsTF:m.1?int => rs.T m;\n", B.SIG_E),
+    # not naming clashes (no model statement): classified by the compiler message only
+    "f": ("boolFalse#bc799737 = Bool;\nboolTrue#997275b5 = Bool;\nrs.t1 Bool = rs.T1;\n", B.SIG_F),
+    "g": ("myTrue = MyTrue;\nfoo n:# x:n.0?myTrue = Foo;\n", B.SIG_G),
 }
+WITNESS_OPTIONS = {"f": ("tl2", ["--tl2WhiteList=*"])}
 
 
 # --------------------------------------------------------------------------- corr:C14:decon
@@ -94,7 +98,19 @@ def plan_units(ctx):
     for k, (body, sig) in WITNESSES.items():
         p = d / f"wit_{k}.tl"
         p.write_text("int#a8509bda ? = Int;\n" + body)
-        add(f"wit_{k}", "witness", [p], "plain", [], expect=k)
+        on, opts = WITNESS_OPTIONS.get(k, ("plain", []))
+        add(f"wit_{k}", "witness", [p], on, opts, expect=k)
+    # recursion: every kind of guarded self reference at every position relative to the # fields used as
+    # masks and sizes, a recursive union, mutual recursion over 2-3 types.  Always inside the budget (run first).
+    rec_opts = [("plain", []), ("split", ["--split-internal"]), ("tl2random", ["--tl2WhiteList=*", "--generateRandomCode"])]
+    if not quick:
+        rec_opts += [("bytesrpc", ["--generateByteVersions=rs."] + B.RPC_OPTS)]
+    for i in range(2 if quick else 12):
+        mg = B.MutGen(rng)
+        p = d / f"rec{i}.tl"
+        p.write_text(randschema.HEADER + "\n".join(mg.recursion_positions(full=(i == 0))) + "\n")
+        for on, opts in rec_opts:
+            add(f"rec{i}", "recursion", [p], on, opts, blocks=["recursion_positions"])
     # repository schemas
     corpus = [("cases", [TLS / "cases.tl"], "cases."),
               ("goldmaster", [TLS / "goldmaster.tl", TLS / "goldmaster2.tl", TLS / "goldmaster3.tl"], "ch_proxy.,ab.,memcache.")]
@@ -268,7 +284,7 @@ def run(ctx):
     # cheap units first (rejected schemas need no build; the tiny witnesses), then the big repository builds
     # interleaved 1:3 with mutated / random schemas: whatever the wall-clock budget cuts off is a tail that
     # contains every kind of unit
-    cheap = [i for i, j in enumerate(jobs) if j["kind"] in ("invalid", "witness")]
+    cheap = [i for i, j in enumerate(jobs) if j["kind"] in ("witness", "recursion")] + [i for i, j in enumerate(jobs) if j["kind"] == "invalid"]
     repo = [i for i, j in enumerate(jobs) if j["kind"] == "repo"]
     rest = sorted((i for i, j in enumerate(jobs) if j["kind"] in ("mutated", "random")),
                   key=lambda i: (int(re.sub(r"\D", "", jobs[i]["name"]) or 0), jobs[i]["kind"], i))
@@ -504,7 +520,11 @@ def run(ctx):
             for k, sig in r.classes:
                 if p is None:
                     continue
-                if k == "d":
+                if k in B.MESSAGE_ONLY_CLASSES:
+                    pat = next(pt for kk, _, pt in B.CLASS_PATTERNS if kk == k)
+                    errs = B.error_lines(r.build_log)
+                    ok = bool(errs) and all(pat.search(e) for e in errs)     # nothing else is wrong with this package
+                elif k == "d":
                     xs = re.findall(r"gen/internal/[^\s:]+\.go:\d+:\d+: (\w+) redeclared in this block", r.build_log)
                     helpers = lists_out[2] if lists_out else set()
                     ok = bool(xs) and not split and all(x in helpers or (x in p.get("heads", ()) and (x.endswith("Bytes") or x.startswith("Builtin"))) for x in xs)
